@@ -18,6 +18,12 @@ pub enum Ty {
     Two,
     Var(TV),
     Thk(Box<CTy>),
+    /// binary product
+    Pair(Box<Ty>, Box<Ty>),
+    /// `exists (X : VType) . T`
+    Ex(TV, Box<Ty>),
+    /// a type operator (index into OPERATORS) applied to an argument
+    App(usize, Box<Ty>),
 }
 #[derive(Clone, Debug, PartialEq, Eq, Hash, PartialOrd, Ord)]
 pub enum CTy {
@@ -51,6 +57,28 @@ pub fn aliases() -> Vec<(&'static str, CTy)> {
     ]
 }
 
+/// type operators `Name (P : VType) = body` (parameter ids >= 2000)
+pub const CONT: usize = 0;
+pub fn operators() -> Vec<(&'static str, TV, Ty)> {
+    vec![("Cont", 2000, thk(func(Ty::Var(2000), ret(Ty::Int))))]
+}
+/// head-normalise a value type (beta-reduce operator applications)
+pub fn expand_t(t: &Ty) -> Ty {
+    match t {
+        | Ty::App(k, a) => {
+            let (_, p, body) = &operators()[*k];
+            subst_t(body, *p, a)
+        }
+        | other => other.clone(),
+    }
+}
+fn pair(a: Ty, b: Ty) -> Ty {
+    Ty::Pair(Box::new(a), Box::new(b))
+}
+fn ex(x: TV, b: Ty) -> Ty {
+    Ty::Ex(x, Box::new(b))
+}
+
 pub fn expand(c: &CTy) -> CTy {
     match c {
         | CTy::Alias(k) => aliases()[*k].1.clone(),
@@ -62,6 +90,20 @@ fn subst_t(t: &Ty, x: TV, with: &Ty) -> Ty {
     match t {
         | Ty::Var(y) if *y == x => with.clone(),
         | Ty::Thk(c) => Ty::Thk(Box::new(subst_c(c, x, with))),
+        | Ty::Pair(a, b) => pair(subst_t(a, x, with), subst_t(b, x, with)),
+        | Ty::App(k, a) => Ty::App(*k, Box::new(subst_t(a, x, with))),
+        | Ty::Ex(y, b) if *y == x => Ty::Ex(*y, b.clone()),
+        | Ty::Ex(y, b) => {
+            let mut fv = BTreeSet::new();
+            ftv_t(with, &mut fv);
+            if fv.contains(y) {
+                let fresh = 20000 + *y;
+                let b2 = subst_t(b, *y, &Ty::Var(fresh));
+                ex(fresh, subst_t(&b2, x, with))
+            } else {
+                ex(*y, subst_t(b, x, with))
+            }
+        }
         | other => other.clone(),
     }
 }
@@ -93,6 +135,17 @@ fn ftv_t(t: &Ty, out: &mut BTreeSet<TV>) {
             out.insert(*x);
         }
         | Ty::Thk(c) => ftv_c(c, out),
+        | Ty::Pair(a, b) => {
+            ftv_t(a, out);
+            ftv_t(b, out);
+        }
+        | Ty::App(_, a) => ftv_t(a, out),
+        | Ty::Ex(x, b) => {
+            let mut inner = BTreeSet::new();
+            ftv_t(b, &mut inner);
+            inner.remove(x);
+            out.extend(inner);
+        }
         | _ => {}
     }
 }
@@ -115,7 +168,7 @@ fn ftv_c(c: &CTy, out: &mut BTreeSet<TV>) {
 
 /// alpha-equivalence with alias expansion; `m` pairs bound variables
 pub fn aeq_t(a: &Ty, b: &Ty, m: &mut Vec<(TV, TV)>) -> bool {
-    match (a, b) {
+    match (&expand_t(a), &expand_t(b)) {
         | (Ty::Int, Ty::Int) | (Ty::Two, Ty::Two) => true,
         | (Ty::Var(x), Ty::Var(y)) => {
             for (l, r) in m.iter().rev() {
@@ -126,6 +179,13 @@ pub fn aeq_t(a: &Ty, b: &Ty, m: &mut Vec<(TV, TV)>) -> bool {
             x == y
         }
         | (Ty::Thk(c), Ty::Thk(d)) => aeq_c(c, d, m),
+        | (Ty::Pair(a1, b1), Ty::Pair(a2, b2)) => aeq_t(a1, a2, m) && aeq_t(b1, b2, m),
+        | (Ty::Ex(x, s), Ty::Ex(y, t)) => {
+            m.push((*x, *y));
+            let r = aeq_t(s, t, m);
+            m.pop();
+            r
+        }
         | _ => false,
     }
 }
@@ -160,6 +220,9 @@ pub enum Val {
     A,
     B,
     Thunk(Box<Cmp>),
+    Pair(Box<Val>, Box<Val>),
+    /// `(T, payload)` at an existential type; only directly under an annotated `let`
+    Pack(Ty, Box<Val>),
 }
 #[derive(Clone, Debug, PartialEq, Eq, Hash)]
 pub enum Cmp {
@@ -173,6 +236,10 @@ pub enum Cmp {
     Force(Val),
     Let(Var, Ty, Val, Box<Cmp>),
     Match(Val, Box<Cmp>, Box<Cmp>),
+    /// `let (X, x) = p in c`: open an existential package
+    Unpack(TV, Var, Val, Box<Cmp>),
+    /// `let (a, b) = v in c`
+    LetPair(Var, Var, Val, Box<Cmp>),
 }
 
 /* ------------------------------- reference checker ------------------------------- */
@@ -215,7 +282,33 @@ pub fn synth_v(s: &Scope, v: &Val) -> Result<Ty, String> {
         | Val::Int(_) => Ty::Int,
         | Val::A | Val::B => Ty::Two,
         | Val::Thunk(c) => thk(synth_c(s, c)?),
+        | Val::Pair(a, b) => pair(synth_v(s, a)?, synth_v(s, b)?),
+        | Val::Pack(..) => return Err("a package needs an annotation".into()),
     })
+}
+/// checking mode for the one form that needs it
+fn check_v(s: &Scope, v: &Val, t: &Ty) -> Result<(), String> {
+    match v {
+        | Val::Pack(w, payload) => match expand_t(t) {
+            | Ty::Ex(x, b) => {
+                wf_t(s, w)?;
+                let want = subst_t(&b, x, w);
+                let got = synth_v(s, payload)?;
+                if !teq(&got, &want) {
+                    return Err(format!("package payload of type {} where {} is expected", show_t(&got), show_t(&want)));
+                }
+                Ok(())
+            }
+            | other => Err(format!("a package at the non-existential type {}", show_t(&other))),
+        },
+        | _ => {
+            let tv = synth_v(s, v)?;
+            if !teq(&tv, t) {
+                return Err(format!("let binds a value of type {} at annotation {}", show_t(&tv), show_t(t)));
+            }
+            Ok(())
+        }
+    }
 }
 pub fn synth_c(s: &Scope, c: &Cmp) -> Result<CTy, String> {
     Ok(match c {
@@ -252,20 +345,34 @@ pub fn synth_c(s: &Scope, c: &Cmp) -> Result<CTy, String> {
             }
             | other => return Err(format!("type application of a computation of type {}", show_c(&other))),
         },
-        | Cmp::Force(v) => match synth_v(s, v)? {
+        | Cmp::Force(v) => match expand_t(&synth_v(s, v)?) {
             | Ty::Thk(c) => *c,
             | other => return Err(format!("force of a value of type {}", show_t(&other))),
         },
         | Cmp::Let(x, t, v, b) => {
             wf_t(s, t)?;
-            let tv = synth_v(s, v)?;
-            if !teq(&tv, t) {
-                return Err(format!("let binds a value of type {} at annotation {}", show_t(&tv), show_t(t)));
-            }
+            check_v(s, v, t)?;
             synth_c(&s.with_var(*x, t.clone()), b)?
         }
+        | Cmp::Unpack(x, y, p, b) => match expand_t(&synth_v(s, p)?) {
+            | Ty::Ex(z, body) => {
+                let t = subst_t(&body, z, &Ty::Var(*x));
+                let r = synth_c(&s.with_tv(*x).with_var(*y, t), b)?;
+                let mut fv = BTreeSet::new();
+                ftv_c(&r, &mut fv);
+                if fv.contains(x) {
+                    return Err(format!("the abstract type T{x} escapes in {}", show_c(&r)));
+                }
+                r
+            }
+            | other => return Err(format!("unpacking a value of type {}", show_t(&other))),
+        },
+        | Cmp::LetPair(x, y, v, b) => match expand_t(&synth_v(s, v)?) {
+            | Ty::Pair(a, c) => synth_c(&s.with_var(*x, *a).with_var(*y, *c), b)?,
+            | other => return Err(format!("pair pattern on a value of type {}", show_t(&other))),
+        },
         | Cmp::Match(v, c1, c2) => {
-            let t = synth_v(s, v)?;
+            let t = expand_t(&synth_v(s, v)?);
             if t != Ty::Two {
                 return Err(format!("match on a value of type {}", show_t(&t)));
             }
@@ -287,6 +394,7 @@ pub enum RV {
     A,
     B,
     Thunk(Rc<Cmp>, REnv),
+    Pair(Box<RV>, Box<RV>),
 }
 pub type REnv = im::OrdMap<Var, RV>;
 enum Frame {
@@ -300,6 +408,11 @@ pub fn show_rv(v: &RV) -> String {
         | RV::A => "+A(())".into(),
         | RV::B => "+B(())".into(),
         | RV::Thunk(..) => "<thunk>".into(),
+        | RV::Pair(a, b) => {
+            // right-nested products are flat
+            let bs = show_rv(b);
+            if matches!(b.as_ref(), RV::Pair(..)) { format!("({},{}", show_rv(a), &bs[1..]) } else { format!("({},{})", show_rv(a), bs) }
+        }
     }
 }
 /// Ok(rendered result) | Err(reason the reference got stuck or ran out of fuel)
@@ -314,6 +427,9 @@ pub fn eval(c: &Cmp, mut fuel: u64) -> Result<String, String> {
             | Val::A => RV::A,
             | Val::B => RV::B,
             | Val::Thunk(c) => RV::Thunk(Rc::new((**c).clone()), env.clone()),
+            | Val::Pair(a, b) => RV::Pair(Box::new(value(a, env)?), Box::new(value(b, env)?)),
+            // types are erased: a package is its payload
+            | Val::Pack(_, payload) => value(payload, env)?,
         })
     }
     loop {
@@ -374,6 +490,18 @@ pub fn eval(c: &Cmp, mut fuel: u64) -> Result<String, String> {
                 | RV::B => cur = Rc::new((**c2).clone()),
                 | other => return Err(format!("STUCK: match on {}", show_rv(&other))),
             },
+            | Cmp::Unpack(_, y, p, b) => {
+                let rv = value(p, &env)?;
+                env = env.update(*y, rv);
+                cur = Rc::new((**b).clone());
+            }
+            | Cmp::LetPair(x, y, v, b) => match value(v, &env)? {
+                | RV::Pair(a, c) => {
+                    env = env.update(*x, *a).update(*y, *c);
+                    cur = Rc::new((**b).clone());
+                }
+                | other => return Err(format!("STUCK: pair pattern on {}", show_rv(&other))),
+            },
         }
     }
 }
@@ -386,11 +514,14 @@ pub fn show_t(t: &Ty) -> String {
         | Ty::Two => "Two".into(),
         | Ty::Var(x) => tv_name(*x),
         | Ty::Thk(c) => format!("Thk ({})", show_c(c)),
+        | Ty::Pair(a, b) => format!("{} * {}", show_t_atom_arrow(a), show_t_atom_arrow(b)),
+        | Ty::Ex(x, b) => format!("exists ({} : VType) . {}", tv_name(*x), show_t(b)),
+        | Ty::App(k, a) => format!("{} {}", operators()[*k].0, show_t_atom(a)),
     }
 }
 fn show_t_atom(t: &Ty) -> String {
     match t {
-        | Ty::Thk(_) => format!("({})", show_t(t)),
+        | Ty::Thk(_) | Ty::Pair(..) | Ty::Ex(..) | Ty::App(..) => format!("({})", show_t(t)),
         | _ => show_t(t),
     }
 }
@@ -407,16 +538,28 @@ pub fn show_c(c: &CTy) -> String {
     }
 }
 fn show_t_atom_arrow(t: &Ty) -> String {
-    // `Thk (..)` is an application and binds tighter than `->`
-    show_t(t)
+    // `Thk (..)` and operator applications bind tighter than `->` and `*`
+    match t {
+        | Ty::Pair(..) | Ty::Ex(..) => format!("({})", show_t(t)),
+        | _ => show_t(t),
+    }
 }
 fn tv_name(x: TV) -> String {
-    if x >= 1000 { format!("X{}", x - 1000) } else { format!("T{x}") }
+    if x >= 2000 {
+        format!("P{}", x - 2000)
+    } else if x >= 1000 {
+        format!("X{}", x - 1000)
+    } else {
+        format!("T{x}")
+    }
 }
 /// expand every alias (printing mode `inline`)
 fn inline_t(t: &Ty) -> Ty {
     match t {
         | Ty::Thk(c) => thk(inline_c(c)),
+        | Ty::Pair(a, b) => pair(inline_t(a), inline_t(b)),
+        | Ty::Ex(x, b) => ex(*x, inline_t(b)),
+        | Ty::App(..) => inline_t(&expand_t(t)),
         | o => o.clone(),
     }
 }
@@ -437,6 +580,15 @@ fn pv(v: &Val, inline: bool) -> String {
         | Val::A => "(+A() : Two)".into(),
         | Val::B => "(+B() : Two)".into(),
         | Val::Thunk(c) => format!("{{ {} }}", pc(c, inline)),
+        | Val::Pair(a, b) => format!("({}, {})", pv(a, inline), pv(b, inline)),
+        | Val::Pack(w, payload) => {
+            let ws = pt(w, inline);
+            match payload.as_ref() {
+                // a package over a pair is written flat: products nest to the right
+                | Val::Pair(a, b) => format!("({}, {}, {})", ws, pv(a, inline), pv(b, inline)),
+                | other => format!("({}, {})", ws, pv(other, inline)),
+            }
+        }
     }
 }
 fn pt(t: &Ty, inline: bool) -> String {
@@ -453,7 +605,7 @@ pub fn pc(c: &Cmp, inline: bool) -> String {
         | Cmp::Ret(v) => format!("ret {}", pv(v, inline)),
         | Cmp::Do(x, t, c1, c2) => {
             let a = match c1.as_ref() {
-                | Cmp::Do(..) | Cmp::Let(..) | Cmp::Fn(..) | Cmp::TFn(..) | Cmp::Match(..) => format!("({})", pc(c1, inline)),
+                | Cmp::Do(..) | Cmp::Let(..) | Cmp::Fn(..) | Cmp::TFn(..) | Cmp::Match(..) | Cmp::Unpack(..) | Cmp::LetPair(..) => format!("({})", pc(c1, inline)),
                 | _ => pc(c1, inline),
             };
             format!("do (v{x} : {}) <- {a}; {}", pt(t, inline), pc(c2, inline))
@@ -463,12 +615,14 @@ pub fn pc(c: &Cmp, inline: bool) -> String {
         | Cmp::App(f, v) => format!("{} {}", head(f, inline), pv(v, inline)),
         | Cmp::TApp(f, t) => {
             let ts = pt(t, inline);
-            let ts = if matches!(t, Ty::Thk(_)) { format!("({ts})") } else { ts };
+            let ts = if matches!(t, Ty::Thk(_) | Ty::Pair(..) | Ty::Ex(..) | Ty::App(..)) { format!("({ts})") } else { ts };
             format!("{} {}", head(f, inline), ts)
         }
         | Cmp::Force(v) => format!("! {}", pv(v, inline)),
         | Cmp::Let(x, t, v, b) => format!("let v{x} : {} = {} in {}", pt(t, inline), pv(v, inline), pc(b, inline)),
         | Cmp::Match(v, c1, c2) => format!("match {} | +A() => {} | +B() => {} end", pv(v, inline), pc(c1, inline), pc(c2, inline)),
+        | Cmp::Unpack(x, y, p, b) => format!("let ({}, v{y}) = {} in {}", tv_name(*x), pv(p, inline), pc(b, inline)),
+        | Cmp::LetPair(x, y, v, b) => format!("let (v{x}, v{y}) = {} in {}", pv(v, inline), pc(b, inline)),
     }
 }
 pub fn program(c: &Cmp, inline: bool) -> String {
@@ -476,6 +630,9 @@ pub fn program(c: &Cmp, inline: bool) -> String {
     if !inline {
         for (n, t) in aliases() {
             s.push_str(&format!("  let {n} = {} that\n", show_c(&t)));
+        }
+        for (n, p, body) in operators() {
+            s.push_str(&format!("  let {n} ({} : VType) = {} that\n", tv_name(p), show_t(&body)));
         }
     }
     s.push_str(&format!("  {}\nend\n", pc(c, inline)));
@@ -485,8 +642,11 @@ pub fn program(c: &Cmp, inline: bool) -> String {
 /* ------------------------------------ generator ------------------------------------ */
 
 pub struct Gen {
-    /// annotation types offered for let-bound values, relative to the type variables in scope
     pub max_vars_per_type: usize,
+    /// F-omega menu: existential packages, a type operator, pairs (instead of the quantifier menu)
+    pub omega: bool,
+    /// set by the `let` generator for the value directly under the annotation (packages need one)
+    pub pack_ok: std::cell::Cell<bool>,
 }
 
 fn splits(n: usize, k: usize) -> Vec<Vec<usize>> {
@@ -517,8 +677,21 @@ impl Gen {
     }
     /// annotation menu for let-bound thunks in this scope
     fn let_menu(&self, s: &Scope) -> Vec<Ty> {
-        let mut m = vec![thk(CTy::Alias(ID)), thk(CTy::Alias(CPS))];
         let z = 500 + s.tvs.len() as TV; // binder id reserved for menu types at this depth
+        if self.omega {
+            // an abstract data type: a hidden representation with an observer
+            let mut m = vec![ex(z, pair(Ty::Var(z), thk(func(Ty::Var(z), ret(Ty::Int)))))];
+            m.push(ex(z, pair(Ty::Var(z), Ty::App(CONT, Box::new(Ty::Var(z))))));
+            m.push(Ty::App(CONT, Box::new(Ty::Int)));
+            m.push(Ty::App(CONT, Box::new(Ty::Two)));
+            for x in &s.tvs {
+                m.push(Ty::App(CONT, Box::new(Ty::Var(*x))));
+            }
+            m.push(pair(Ty::Int, Ty::Two));
+            m.push(thk(func(Ty::Two, ret(Ty::Int))));
+            return m;
+        }
+        let mut m = vec![thk(CTy::Alias(ID)), thk(CTy::Alias(CPS))];
         // an inline alpha-variant of Id
         m.push(thk(all(z, func(Ty::Var(z), ret(Ty::Var(z))))));
         for x in &s.tvs {
@@ -542,6 +715,7 @@ impl Gen {
     }
 
     pub fn vals(&self, s: &Scope, t: &Ty, n: usize) -> Vec<Val> {
+        let allow_pack = self.pack_ok.replace(false);
         let mut out = vec![];
         if n == 0 {
             return out;
@@ -555,10 +729,37 @@ impl Gen {
             }
             return out;
         }
-        if let Ty::Thk(c) = t {
-            for b in self.cmps(s, c, n - 1) {
-                out.push(Val::Thunk(Box::new(b)));
+        match expand_t(t) {
+            | Ty::Thk(c) => {
+                for b in self.cmps(s, &c, n - 1) {
+                    out.push(Val::Thunk(Box::new(b)));
+                }
             }
+            | Ty::Pair(a, b) => {
+                for k in 1..n - 1 {
+                    let ls = self.vals(s, &a, k);
+                    if ls.is_empty() {
+                        continue;
+                    }
+                    let rs = self.vals(s, &b, n - 1 - k);
+                    for l in &ls {
+                        for r in &rs {
+                            out.push(Val::Pair(Box::new(l.clone()), Box::new(r.clone())));
+                        }
+                    }
+                }
+            }
+            | Ty::Ex(x, b) => {
+                // a package is only generated directly under an annotated let (see cmps)
+                if self.omega && allow_pack {
+                    for w in self.insts(s) {
+                        for payload in self.vals(s, &subst_t(&b, x, &w), n - 1) {
+                            out.push(Val::Pack(w.clone(), Box::new(payload)));
+                        }
+                    }
+                }
+            }
+            | _ => {}
         }
         out
     }
@@ -617,11 +818,37 @@ impl Gen {
         }
         // eliminations of thunk variables
         for (x, vt) in s.vars.iter() {
-            if let Ty::Thk(c) = vt {
+            if let Ty::Thk(c) = expand_t(vt) {
                 if !self.vars_of(s, vt).contains(x) {
                     continue;
                 }
-                self.spine(s, Cmp::Force(Val::Var(*x)), c, t, n - 2, &mut out);
+                self.spine(s, Cmp::Force(Val::Var(*x)), &c, t, n - 2, &mut out);
+            }
+        }
+        if self.omega && n >= 4 {
+            // open a package / split a pair held in a variable
+            for (x, vt) in s.vars.iter() {
+                if !self.vars_of(s, vt).contains(x) {
+                    continue;
+                }
+                match expand_t(vt) {
+                    | Ty::Ex(z, b) => {
+                        let tv = Self::fresh_tv(s);
+                        let y = Self::fresh_var(s);
+                        let s2 = s.with_tv(tv).with_var(y, subst_t(&b, z, &Ty::Var(tv)));
+                        for body in self.cmps(&s2, t, n - 2) {
+                            out.push(Cmp::Unpack(tv, y, Val::Var(*x), Box::new(body)));
+                        }
+                    }
+                    | Ty::Pair(a, b) => {
+                        let y = Self::fresh_var(s);
+                        let s2 = s.with_var(y, (*a).clone()).with_var(y + 1, (*b).clone());
+                        for body in self.cmps(&s2, t, n - 2) {
+                            out.push(Cmp::LetPair(y, y + 1, Val::Var(*x), Box::new(body)));
+                        }
+                    }
+                    | _ => {}
+                }
             }
         }
         // do: bind an intermediate result of a ground or variable type
@@ -649,7 +876,9 @@ impl Gen {
             let x = Self::fresh_var(s);
             for ann in self.let_menu(s) {
                 for k in 3..=(n - 3) {
+                    self.pack_ok.set(true);
                     let vs = self.vals(s, &ann, k);
+                    self.pack_ok.set(false);
                     if vs.is_empty() {
                         continue;
                     }
@@ -692,7 +921,12 @@ impl Gen {
 /// programs whose body uses at least one type abstraction or application
 fn is_poly(c: &Cmp) -> bool {
     fn v(x: &Val) -> bool {
-        matches!(x, Val::Thunk(c) if is_poly(c))
+        match x {
+            | Val::Thunk(c) => is_poly(c),
+            | Val::Pack(..) => true,
+            | Val::Pair(a, b) => v(a) || v(b),
+            | _ => false,
+        }
     }
     match c {
         | Cmp::TFn(..) | Cmp::TApp(..) => true,
@@ -701,6 +935,8 @@ fn is_poly(c: &Cmp) -> bool {
         | Cmp::Fn(_, _, b) => is_poly(b),
         | Cmp::App(f, x) => is_poly(f) || v(x),
         | Cmp::Let(_, _, x, b) => v(x) || is_poly(b),
+        | Cmp::Unpack(..) => true,
+        | Cmp::LetPair(_, _, x, b) => v(x) || is_poly(b),
     }
 }
 
@@ -721,8 +957,30 @@ fn wrap(alias: usize, body: Cmp) -> Cmp {
     Cmp::Let(main, thk(CTy::Alias(alias)), Val::Thunk(Box::new(body)), Box::new(observe))
 }
 
+/// the F-omega part: existential packages, a type operator, pairs
+pub fn universe_omega(tier: Tier) -> Vec<Cmp> {
+    let g = Gen { max_vars_per_type: 2, omega: true, pack_ok: std::cell::Cell::new(false) };
+    let n = if tier == Tier::Thorough { 15 } else { 13 };
+    let mut out = vec![];
+    for root in [ret(Ty::Int), ret(Ty::Two)] {
+        for k in 2..=n {
+            // keep programs that open a package, split a pair or bind at an operator application
+            out.extend(g.cmps(&Scope::default(), &root, k).into_iter().filter(|c| {
+                let d = format!("{:?}", c);
+                d.contains("Unpack(") || d.contains("LetPair(") || d.contains("App(0")
+            }));
+        }
+    }
+    out
+}
+
+fn uses_omega(c: &Cmp) -> bool {
+    let d = format!("{:?}", c);
+    d.contains("Pack(") || d.contains("Unpack(") || d.contains("LetPair(") || d.contains("App(0") || d.contains("Pair(")
+}
+
 pub fn universe(tier: Tier) -> Vec<Cmp> {
-    let g = Gen { max_vars_per_type: 2 };
+    let g = Gen { max_vars_per_type: 2, omega: false, pack_ok: std::cell::Cell::new(false) };
     let (n_plain, n_id, n_cps) = if tier == Tier::Thorough { (17, 15, 14) } else { (15, 13, 12) };
     let mut out = vec![];
     for root in [ret(Ty::Int), ret(Ty::Two)] {
@@ -735,6 +993,7 @@ pub fn universe(tier: Tier) -> Vec<Cmp> {
             out.extend(g.cmps(&Scope::default(), &CTy::Alias(alias), k).into_iter().map(|b| wrap(alias, b)));
         }
     }
+    out.extend(universe_omega(tier));
     out
 }
 
@@ -744,7 +1003,7 @@ pub fn universe(tier: Tier) -> Vec<Cmp> {
 /// replacing a type argument by another candidate; replacing a `let` annotation by another menu
 /// entry; replacing a parameter annotation by another candidate type
 pub fn mutants(c: &Cmp) -> Vec<(String, Cmp)> {
-    let g = Gen { max_vars_per_type: 99 };
+    let g = Gen { max_vars_per_type: 99, omega: uses_omega(c), pack_ok: std::cell::Cell::new(false) };
     let mut out = vec![];
     fn go_v(g: &Gen, s: &Scope, v: &Val, rebuild: &dyn Fn(Val) -> Cmp, out: &mut Vec<(String, Cmp)>) {
         match v {
@@ -756,6 +1015,18 @@ pub fn mutants(c: &Cmp) -> Vec<(String, Cmp)> {
                 }
             }
             | Val::Thunk(c) => go_c(g, s, c, &|c2| rebuild(Val::Thunk(Box::new(c2))), out),
+            | Val::Pair(a, b) => {
+                go_v(g, s, a, &|a2| rebuild(Val::Pair(Box::new(a2), b.clone())), out);
+                go_v(g, s, b, &|b2| rebuild(Val::Pair(a.clone(), Box::new(b2))), out);
+            }
+            | Val::Pack(w, payload) => {
+                for w2 in g.insts(s) {
+                    if w2 != *w {
+                        out.push((format!("type argument {} replaced by {} (package witness)", show_t(w), show_t(&w2)), rebuild(Val::Pack(w2, payload.clone()))));
+                    }
+                }
+                go_v(g, s, payload, &|p2| rebuild(Val::Pack(w.clone(), Box::new(p2))), out);
+            }
             | _ => {}
         }
     }
@@ -807,6 +1078,22 @@ pub fn mutants(c: &Cmp) -> Vec<(String, Cmp)> {
                 go_c(g, s, a, &|a2| rebuild(Cmp::Match(v.clone(), Box::new(a2), b.clone())), out);
                 go_c(g, s, b, &|b2| rebuild(Cmp::Match(v.clone(), a.clone(), Box::new(b2))), out);
             }
+            | Cmp::Unpack(x, y, p, b) => {
+                // let the abstract type escape through the result
+                out.push((format!("occurrence: body of the unpacking of v{y} replaced by `ret v{y}`"), rebuild(Cmp::Unpack(*x, *y, p.clone(), Box::new(Cmp::Ret(Val::Var(*y)))))));
+                go_v(g, s, p, &|p2| rebuild(Cmp::Unpack(*x, *y, p2, b.clone())), out);
+                if let Ok(Ty::Ex(z, body)) = synth_v(s, p).map(|t| expand_t(&t)) {
+                    let s2 = s.with_tv(*x).with_var(*y, subst_t(&body, z, &Ty::Var(*x)));
+                    go_c(g, &s2, b, &|b2| rebuild(Cmp::Unpack(*x, *y, p.clone(), Box::new(b2))), out);
+                }
+            }
+            | Cmp::LetPair(x, y, v, b) => {
+                go_v(g, s, v, &|v2| rebuild(Cmp::LetPair(*x, *y, v2, b.clone())), out);
+                if let Ok(Ty::Pair(ta, tb)) = synth_v(s, v).map(|t| expand_t(&t)) {
+                    let s2 = s.with_var(*x, *ta).with_var(*y, *tb);
+                    go_c(g, &s2, b, &|b2| rebuild(Cmp::LetPair(*x, *y, v.clone(), Box::new(b2))), out);
+                }
+            }
         }
     }
     go_c(&g, &Scope::default(), c, &|c2| c2, &mut out);
@@ -817,7 +1104,12 @@ pub fn mutants(c: &Cmp) -> Vec<(String, Cmp)> {
 /// that is itself checked against alias k (directly under a `let .. : Thk <alias k>`)?
 fn same_alias_nested(c: &Cmp) -> bool {
     fn v(x: &Val, open: &Vec<usize>) -> bool {
-        matches!(x, Val::Thunk(c) if go(c, open))
+        match x {
+            | Val::Thunk(c) => go(c, open),
+            | Val::Pair(a, b) => v(a, open) || v(b, open),
+            | Val::Pack(_, p) => v(p, open),
+            | _ => false,
+        }
     }
     fn go(c: &Cmp, open: &Vec<usize>) -> bool {
         match c {
@@ -842,6 +1134,7 @@ fn same_alias_nested(c: &Cmp) -> bool {
             | Cmp::Fn(_, _, b) | Cmp::TFn(_, b) => go(b, open),
             | Cmp::App(f, x) => go(f, open) || v(x, open),
             | Cmp::TApp(f, _) => go(f, open),
+            | Cmp::Unpack(_, _, x, b) | Cmp::LetPair(_, _, x, b) => v(x, open) || go(b, open),
         }
     }
     go(c, &vec![])
@@ -887,7 +1180,7 @@ impl Check for PolyUniverse {
         format!("programs {}..{} of the System-F universe; first:\n{}", a, (a + self.chunk).min(self.progs.len()), program(&self.progs[a], false))
     }
     fn rule(&self) -> String {
-        format!("every closed computation of type Ret Int64 / Ret Two with at most {} nodes in a System-F fragment (ret, do, annotated fn, type abstraction, application to values and to types drawn from {{Int64, Two, type variables in scope}}, force, let at an annotation from a menu of thunk types — the aliases Id = forall X . X -> Ret X and Cps, an inline alpha-variant, quantified types with a free enclosing variable, monomorphic function types —, match) that uses at least one type abstraction or application ({} programs), each printed twice (aliases by name / aliases expanded), plus every single-site mutant (variable occurrence -> another variable in scope, type argument -> another candidate, let annotation -> another menu entry, parameter annotation -> another candidate); reference: a synthesis-only checker for the explicitly typed fragment with alpha-equivalence and alias expansion, and a type-erasing evaluator; oracle for {}: {}; non-trivial = every program (all use polymorphism)",
+        format!("every closed computation of type Ret Int64 / Ret Two with at most {} nodes in a System-F fragment (ret, do, annotated fn, type abstraction, application to values and to types drawn from {{Int64, Two, type variables in scope}}, force, let at an annotation from a menu of thunk types — the aliases Id = forall X . X -> Ret X and Cps, an inline alpha-variant, quantified types with a free enclosing variable, monomorphic function types —, match) that uses at least one type abstraction or application, plus an F-omega part with at most 13 (thorough 15) nodes whose let menu offers existential packages over a pair of a hidden representation and an observer, the type operator Cont (P : VType) = Thk (P -> Ret Int64) applied to Int64 / Two / variables, and pairs, with package introduction (witness from the candidates), unpacking and pair patterns ({} programs in all), each printed twice (aliases by name / aliases expanded), plus every single-site mutant (variable occurrence -> another variable in scope, type argument -> another candidate, let annotation -> another menu entry, parameter annotation -> another candidate, package witness -> another candidate, body of an unpacking -> `ret payload`, which lets the abstract type escape); reference: a synthesis-only checker for the explicitly typed fragment with alpha-equivalence and alias expansion, and a type-erasing evaluator; oracle for {}: {}; non-trivial = every program (all use polymorphism)",
             if self.progs.is_empty() { 0 } else { 12 },
             self.progs.len(),
             self.prop,
@@ -990,7 +1283,9 @@ impl Check for PolyUniverse {
 }
 
 fn mutation_kind(desc: &str) -> &'static str {
-    if desc.starts_with("occurrence") {
+    if desc.starts_with("occurrence: body") {
+        "abstract type escapes its unpacking"
+    } else if desc.starts_with("occurrence") {
         "variable occurrence replaced"
     } else if desc.starts_with("type argument") {
         "type argument replaced"
@@ -1005,7 +1300,7 @@ fn mutation_kind(desc: &str) -> &'static str {
 
 /// all value types with exactly `n` nodes over {Int64, the free variable X (id 0), bound variables,
 /// ->, Ret, Thk, forall, the alias Id}
-fn types_t(n: usize, bound: &Vec<TV>) -> Vec<Ty> {
+fn types_t(n: usize, bound: &Vec<TV>, omega: bool) -> Vec<Ty> {
     let mut out = vec![];
     if n == 1 {
         out.push(Ty::Int);
@@ -1013,12 +1308,38 @@ fn types_t(n: usize, bound: &Vec<TV>) -> Vec<Ty> {
         out.extend(bound.iter().map(|b| Ty::Var(*b)));
         return out;
     }
-    for c in types_c(n - 1, bound) {
+    for c in types_c(n - 1, bound, omega) {
         out.push(thk(c));
+    }
+    // operator application, pairs, existentials
+    if !omega {
+        return out;
+    }
+    for a in types_t(n - 1, bound, omega) {
+        out.push(Ty::App(CONT, Box::new(a)));
+    }
+    if n >= 3 {
+        for k in 1..n - 1 {
+            for a in types_t(k, bound, omega) {
+                for b in types_t(n - 1 - k, bound, omega) {
+                    out.push(pair(a.clone(), b));
+                }
+            }
+        }
+        let z = 10 + bound.len() as TV;
+        let mut b2 = bound.clone();
+        b2.push(z);
+        for b in types_t(n - 1, &b2, omega) {
+            let mut fv = BTreeSet::new();
+            ftv_t(&b, &mut fv);
+            if fv.contains(&z) {
+                out.push(ex(z, b));
+            }
+        }
     }
     out
 }
-fn types_c(n: usize, bound: &Vec<TV>) -> Vec<CTy> {
+fn types_c(n: usize, bound: &Vec<TV>, omega: bool) -> Vec<CTy> {
     let mut out = vec![];
     if n == 0 {
         return out;
@@ -1027,12 +1348,12 @@ fn types_c(n: usize, bound: &Vec<TV>) -> Vec<CTy> {
         out.push(CTy::Alias(ID));
         return out;
     }
-    for t in types_t(n - 1, bound) {
+    for t in types_t(n - 1, bound, omega) {
         out.push(ret(t));
     }
     for k in 1..n - 1 {
-        for a in types_t(k, bound) {
-            for b in types_c(n - 1 - k, bound) {
+        for a in types_t(k, bound, omega) {
+            for b in types_c(n - 1 - k, bound, omega) {
                 out.push(func(a.clone(), b));
             }
         }
@@ -1040,7 +1361,7 @@ fn types_c(n: usize, bound: &Vec<TV>) -> Vec<CTy> {
     let z = 10 + bound.len() as TV;
     let mut b2 = bound.clone();
     b2.push(z);
-    for b in types_c(n - 1, &b2) {
+    for b in types_c(n - 1, &b2, omega) {
         // a quantifier that binds nothing adds no information
         let mut fv = BTreeSet::new();
         ftv_c(&b, &mut fv);
@@ -1052,7 +1373,7 @@ fn types_c(n: usize, bound: &Vec<TV>) -> Vec<CTy> {
 }
 
 pub fn count_types(n: usize) -> usize {
-    types_t(n, &vec![]).into_iter().filter(|t| matches!(t, Ty::Thk(_))).count()
+    types_t(n, &vec![], true).len()
 }
 
 pub struct PolyMatrix {
@@ -1060,10 +1381,19 @@ pub struct PolyMatrix {
 }
 impl PolyMatrix {
     pub fn new(tier: Tier) -> Self {
-        let n = if tier == Tier::Thorough { 9 } else { 8 };
-        let mut types = vec![];
-        for k in 2..=n {
-            types.extend(types_t(k, &vec![]).into_iter().filter(|t| matches!(t, Ty::Thk(_))));
+        // deep quantifier/thunk types, plus every type over the full grammar (operator application,
+        // pairs, existentials) up to a smaller size
+        let (n_thk, n_all) = if tier == Tier::Thorough { (9, 6) } else { (8, 5) };
+        let mut types: Vec<Ty> = vec![];
+        for k in 2..=n_thk {
+            types.extend(types_t(k, &vec![], false).into_iter().filter(|t| matches!(t, Ty::Thk(_))));
+        }
+        for k in 2..=n_all {
+            for t in types_t(k, &vec![], true) {
+                if !types.contains(&t) {
+                    types.push(t);
+                }
+            }
         }
         PolyMatrix { types }
     }
@@ -1071,10 +1401,10 @@ impl PolyMatrix {
         // the enclosing abstraction is checked against the alias Id, so `X0` (printed for variable 0)
         // is the alias's own opened variable
         format!(
-            "begin\n  let VType = @(intrinsic(vtype)) that\n  let Ret = @(intrinsic(ret)) that\n  let Thk = @(intrinsic(thk)) that\n  let Int64 = @(intrinsic(i64)) that\n  let Id = forall (X0 : VType) . X0 -> Ret X0 that\n  let outer : Thk Id = {{ fn (T0 : VType) (x : T0) =>\n    let f : Thk ({} -> Ret Int64) = {{ fn (a : {}) => let b : {} = a in ret 0 }} in\n    ret x }} in\n  ret 0\nend\n",
-            show_t(a),
-            show_t(a),
-            show_t(b)
+            "begin\n  let VType = @(intrinsic(vtype)) that\n  let Ret = @(intrinsic(ret)) that\n  let Thk = @(intrinsic(thk)) that\n  let Int64 = @(intrinsic(i64)) that\n  let Id = forall (X0 : VType) . X0 -> Ret X0 that\n  let Cont (P0 : VType) = Thk (P0 -> Ret Int64) that\n  let outer : Thk Id = {{ fn (T0 : VType) (x : T0) =>\n    let f : Thk ({} -> Ret Int64) = {{ fn (a : {}) => let b : {} = a in ret 0 }} in\n    ret x }} in\n  ret 0\nend\n",
+            show_t_atom_arrow(a),
+            show_t_atom_arrow(a),
+            show_t_atom_arrow(b)
         )
     }
 }
@@ -1092,7 +1422,7 @@ impl Check for PolyMatrix {
         format!("row {}: a value of type {} bound at each of the {} types; e.g.\n{}", i, show_t(&self.types[i]), self.types.len(), Self::source(&self.types[i], &self.types[0]))
     }
     fn rule(&self) -> String {
-        format!("all ordered pairs (A, B) of the {} thunk types with at most {} nodes over {{Int64, a free type variable (the opened variable of the enclosing abstraction, which is checked against the alias Id), bound variables, ->, Ret, Thk, forall, the alias Id itself}}; program: inside that abstraction, `fn (a : A) => let b : B = a in ret 0`; oracle: accepted iff A and B are alpha-equivalent (aliases expanded); non-trivial = every row", self.types.len(), 8)
+        format!("all ordered pairs (A, B) of the {} thunk types with at most {} nodes over {{Int64, a free type variable (the opened variable of the enclosing abstraction, which is checked against the alias Id), bound variables, ->, Ret, Thk, forall, the alias Id itself}} united with all types of at most 5 (thorough 6) nodes over that grammar extended by pairs, existentials and applications of the type operator Cont; program: inside that abstraction, `fn (a : A) => let b : B = a in ret 0`; oracle: accepted iff A and B are alpha-equivalent (aliases expanded); non-trivial = every row", self.types.len(), 8)
     }
     fn timeout(&self) -> std::time::Duration {
         std::time::Duration::from_secs(300)
